@@ -31,7 +31,7 @@ def spell(rng, elems, absolute):
         if rng.random() < 0.3:
             s = s + rng.choice(SPACES)
         parts.append(s)
-    out = "m" if absolute else ""
+    out = ("/" * (rng.randrange(1, 3) if rng.random() < 0.15 else 0) + "m") if absolute else ""
     for p in parts:
         out += "/" * (1 if rng.random() < 0.8 else rng.randrange(2, 4)) + p
     if not absolute:
